@@ -195,6 +195,34 @@ int __wrap_close(int fd) {
     int64_t prm; if (fault_here("close", &prm)) { S->fault_kind[F_EINTR]++; note("close", nullptr, fd, -EINTR); errno = (int)prm ? (int)prm : EINTR; return -1; }
     int r = __real_close(fd); note("close", nullptr, fd, r); return r;
 }
+// Build without <sys/uio.h> (--build-tag nouio): wasi.c brings its own readv/writev, loops over read()/write(). Faults are then
+// injected one level lower, at one segment's read()/write(), so that the emulation's own error handling is what gets exercised.
+static bool g_nouio = false;
+static bool seg_fault_here(const char* call) {
+    if (!g_nouio || !g_cur_op || g_cur_op->fault.empty()) return false;
+    const std::string& f = g_cur_op->fault; bool rd = !strcmp(call, "read");
+    bool match = rd ? (f == "short_read" || f == "eintr_read" || f == "eio_read") : (f == "short_write" || f == "eintr_write" || f == "eio_write" || f == "enospc_write");
+    if (!match) return false;
+    size_t nseg = g_cur_op->iov.empty() ? 1 : g_cur_op->iov.size();
+    int target = 1 + (int)(((size_t)(g_cur_op->iov.empty() ? 0 : g_cur_op->iov[0]) + nseg * 7 + (size_t)g_cur_op->get("off")) % nseg);
+    if (++g_callcount[call] != target) return false;
+    if (S) S->faults_fired++;
+    return true;
+}
+extern "C" ssize_t __real_read(int, void*, size_t);
+extern "C" ssize_t __real_write(int, const void*, size_t);
+extern "C" ssize_t __wrap_read(int fd, void* buf, size_t n) {
+    if (!sut() || !seg_fault_here("read")) return __real_read(fd, buf, n);
+    const std::string& f = g_cur_op->fault;
+    if (f == "short_read") { S->fault_kind[F_SHORT_READ]++; return __real_read(fd, buf, n > 1 ? n / 2 : n); }
+    int e = f == "eintr_read" ? EINTR : EIO; S->fault_kind[e == EINTR ? F_EINTR : F_EIO]++; errno = e; return -1;
+}
+extern "C" ssize_t __wrap_write(int fd, const void* buf, size_t n) {
+    if (!sut() || !seg_fault_here("write")) return __real_write(fd, buf, n);
+    const std::string& f = g_cur_op->fault;
+    if (f == "short_write") { S->fault_kind[F_SHORT_WRITE]++; return __real_write(fd, buf, n > 1 ? n / 2 : n); }
+    int e = f == "eintr_write" ? EINTR : f == "eio_write" ? EIO : ENOSPC; S->fault_kind[e == EINTR ? F_EINTR : e == EIO ? F_EIO : F_ENOSPC]++; errno = e; return -1;
+}
 static ssize_t cut_iov(ssize_t (*f)(int, const struct iovec*, int), int fd, const struct iovec* iov, int cnt, size_t k) {
     std::vector<struct iovec> v; size_t left = k;
     for (int i = 0; i < cnt && left > 0; i++) { struct iovec e = iov[i]; if (e.iov_len > left) e.iov_len = left; left -= e.iov_len; v.push_back(e); }
@@ -204,7 +232,7 @@ static ssize_t cut_iov(ssize_t (*f)(int, const struct iovec*, int), int fd, cons
 ssize_t __wrap_writev(int fd, const struct iovec* iov, int cnt) {
     if (!sut()) return __real_writev(fd, iov, cnt);
     int64_t prm;
-    if (fault_here("writev", &prm)) {
+    if (!g_nouio && fault_here("writev", &prm)) {
         const std::string& f = g_cur_op->fault;
         if (f == "short_write") { S->fault_kind[F_SHORT_WRITE]++; ssize_t r = cut_iov(__real_writev, fd, iov, cnt, (size_t)prm); note("writev", nullptr, fd, r); return r; }
         int e = f == "eintr_write" ? EINTR : f == "eio_write" ? EIO : ENOSPC;
@@ -215,7 +243,7 @@ ssize_t __wrap_writev(int fd, const struct iovec* iov, int cnt) {
 ssize_t __wrap_readv(int fd, const struct iovec* iov, int cnt) {
     if (!sut()) return __real_readv(fd, iov, cnt);
     int64_t prm;
-    if (fault_here("readv", &prm)) {
+    if (!g_nouio && fault_here("readv", &prm)) {
         const std::string& f = g_cur_op->fault;
         if (f == "short_read") { S->fault_kind[F_SHORT_READ]++; ssize_t r = cut_iov(__real_readv, fd, iov, cnt, (size_t)prm); note("readv", nullptr, fd, r); return r; }
         int e = f == "eintr_read" ? EINTR : EIO;
